@@ -54,6 +54,15 @@ func (vc *VC) heapOf(st *State, c *Component) string {
 	if t, ok := st.heap[c.Name]; ok {
 		return t
 	}
+	// ghost state of a channel producer: nothing has been sent at function entry
+	if st.epoch == 0 {
+		if strings.HasPrefix(c.Name, "ChanFinal_") {
+			return "false"
+		}
+		if strings.HasPrefix(c.Name, "ChanCount_") {
+			return "0"
+		}
+	}
 	n := fmt.Sprintf("H%d_%s", st.epoch, c.Name)
 	if !vc.declared[n] {
 		vc.declareNamed(n, c.Sort)
@@ -71,7 +80,17 @@ func (vc *VC) heapOf(st *State, c *Component) string {
 // value: integer ranges, slice headers with 0 <= len <= cap, and so on.
 func (vc *VC) heapTypeInv(c *Component, h string, blk int, bound string) {
 	var T types.Type = c.T // cells: content type; arrays: element type
-	if _, isMap := c.T.Underlying().(*types.Map); isMap && !c.IsArr {
+	if m, isMap := c.T.Underlying().(*types.Map); isMap && !c.IsArr {
+		// map values: every stored value satisfies its type invariant (in
+		// particular stored references predate the frontier)
+		if strings.HasPrefix(c.Name, "MapV_") && bound != "" {
+			vc.ctr++
+			r, k := fmt.Sprintf("r!%d", vc.ctr), fmt.Sprintf("k!%d", vc.ctr)
+			x := "(select (select " + h + " " + r + ") " + k + ")"
+			if inv := vc.typeInv(x, m.Elem(), bound); inv != "true" {
+				vc.facts = append(vc.facts, Fact{fmt.Sprintf("(forall ((%s Int) (%s %s)) (! %s :pattern (%s)))", r, k, vc.S.sortOf(m.Key()), inv, x), "type invariant of stored map values (" + c.Name + ")", blk})
+			}
+		}
 		return
 	}
 	// bound: the allocation frontier at the point where h is the heap; every
@@ -145,6 +164,11 @@ type Frame struct {
 	names map[string]*specBinding
 
 	modLocs []modLoc // own modifies, evaluated at entry (top only)
+
+	chans   map[ssa.Value]*chanProd // channels whose producer is known (consumer side)
+	chanCap map[ssa.Value]string
+	defers  []deferred
+	closed  map[string]string // producer side: condition under which a channel has been closed
 
 	selfVal       string    // function value of the dynamic call being translated ("self")
 	loopCon       *Contract // own contract supplying loop invariants (interface-contract mode)
